@@ -6,6 +6,7 @@
 (* and the entry structs), and three generic interpreters of that table:   *)
 (*                                                                         *)
 (*   Encode(x)  the cells <<width, value, role, class>> of a raw value x   *)
+(*              (a run of bytes - Utf8, code, opaque bodies - is one cell)  *)
 (*              (mirrors the `write` rules of notation!, macros.rs)        *)
 (*   LenOf(x)   its size in bytes            (mirrors the `len` rules)     *)
 (*   Decode(b)  the raw value of a byte sequence (mirrors the `read`       *)
@@ -275,7 +276,8 @@ ByteLen(cells) == CellBytes(cells, 1)
 B2(v) == <<v \div 256, v % 256>>
 B4(v) == <<v \div 16777216, (v \div 65536) % 256, (v \div 256) % 256, v % 256>>
 BytesOfCell(c) ==
-    IF c.w = 1 THEN <<c.v>>
+    IF c.c = "run" THEN c.v
+    ELSE IF c.w = 1 THEN <<c.v>>
     ELSE IF c.w = 2 THEN B2(c.v)
     ELSE IF IsPair(c) THEN B2(c.v[1]) \o B2(c.v[2])
     ELSE B4(c.v)
@@ -297,7 +299,8 @@ TagOf(v, x) ==
 RECURSIVE EncT(_, _), EncFs(_, _, _, _), EncSeq(_, _, _, _)
 
 EncSeq(el, r, s, i) ==
-    IF i > Len(s) THEN <<>>
+    IF el = "u1" THEN <<Cell(Len(s), s, r, "run")>>         \* a run of bytes is one cell: its width is its length
+    ELSE IF i > Len(s) THEN <<>>
     ELSE (IF IsScalarT(el) THEN <<Cell(ScalarW(el), s[i], r, "data")>> ELSE EncT(el, s[i])) \o EncSeq(el, r, s, i + 1)
 
 EncFs(ctx, fs, i, x) ==
